@@ -225,3 +225,109 @@ def c_unknown_command_ctor(k: int) -> bool:
   except X.AdbProtocolError:
     return True
   return False
+
+
+# =============================================================== E3: locks ====
+# Header and payload of concurrent writers (and readers) never interleave.
+# AdbTransportAdapter.write_message / read_message are sequentialised from their
+# live source; two threads share one adapter; the schedule is symbolic.
+
+from vlib.seqz import core as Z
+from vlib.seqz import prims as _prims
+
+_E3_ORIG = Z.encode_methods(M.AdbTransportAdapter, ['write_message', 'read_message'], {'threading': _prims.threading})
+BOUNDS['interleavings'] = 'two writers / two readers on one adapter; <= 2 preemptions at symbolic steps (statement-level yields inside write_message/read_message) plus the choice of the next thread when one blocks; timeout-expired bits symbolic'
+STUBS.append('E3: cooperative Lock for _reader_lock/_writer_lock, scheduler with symbolic decisions (vlib/seqz)')
+OUTSIDE[:] = [o for o in OUTSIDE if 'interleaving' not in o] + ['preemption inside transport.write/read or inside non-encoded callees']
+
+_FUNCTIONS_E1 = FUNCTIONS
+
+
+def FUNCTIONS():
+  return _FUNCTIONS_E1() + list(_E3_ORIG)
+
+
+def _adapter(t):
+  ad = M.AdbTransportAdapter(t)
+  ad._reader_lock = _prims.Lock()
+  ad._writer_lock = _prims.Lock()
+  return ad
+
+
+def _writer(ad, msg, expired):
+  yield from Z.co(ad.write_message, msg, usbstub.ScriptTimeout([expired]))
+
+
+def _reader(ad, out, expired):
+  m = yield from Z.co(ad.read_message, usbstub.ScriptTimeout([expired]))
+  out.append((m.command, m.arg0, m.data))
+
+
+@cond(timeout=900)
+def c_two_writers_do_not_interleave(p0: int, t0: int, p1: int, t1: int, k0: int, e0: bool, e1: bool) -> bool:
+  """
+  pre: 0 <= p0 <= 30 and 0 <= t0 <= 1 and p0 <= p1 <= 30 and 0 <= t1 <= 1
+  pre: 0 <= k0 <= 1
+  post: _
+  """
+  t = usbstub.FakeTransport()
+  ad = _adapter(t)
+  a = M.AdbMessage('WRTE', 1, 2, 'aa')
+  b = M.AdbMessage('OKAY', 3, 4, 'b')
+  s = Z.Sched(preempt=[(p0, t0), (p1, t1)], pick=[k0], max_steps=200)
+  ca = s.spawn('wa', _writer(ad, a, e0))
+  cb = s.spawn('wb', _writer(ad, b, e1))
+  try:
+    s.run()
+  except Z.Deadlock:
+    return False
+  reach()
+  if ca.exc is not None or cb.exc is not None:
+    return False
+  ha, hb = list(a.header), list(b.header)
+  w = [list(x) if not isinstance(x, str) else x for x in t.writes]
+  # once a header has been sent its payload follows immediately, whoever runs in between
+  return w == [ha, 'aa', hb, 'b'] or w == [hb, 'b', ha, 'aa']
+
+
+@cond(timeout=900)
+def c_two_readers_get_whole_frames(p0: int, t0: int, p1: int, t1: int, k0: int, e0: bool, e1: bool) -> bool:
+  """
+  pre: 0 <= p0 <= 30 and 0 <= t0 <= 1 and p0 <= p1 <= 30 and 0 <= t1 <= 1
+  pre: 0 <= k0 <= 1
+  post: _
+  """
+  a = M.AdbMessage('WRTE', 1, 2, 'aa')
+  b = M.AdbMessage('WRTE', 3, 4, 'b')
+  t = usbstub.FakeTransport([a.header, 'aa', b.header, 'b'])
+  ad = _adapter(t)
+  out = []
+  s = Z.Sched(preempt=[(p0, t0), (p1, t1)], pick=[k0], max_steps=200)
+  ca = s.spawn('ra', _reader(ad, out, e0))
+  cb = s.spawn('rb', _reader(ad, out, e1))
+  try:
+    s.run()
+  except Z.Deadlock:
+    return False
+  reach()
+  if ca.exc is not None or cb.exc is not None:
+    return False
+  return sorted(out) == [('WRTE', 1, 'aa'), ('WRTE', 3, 'b')]
+
+
+@cond(timeout=120, expect='refute')
+def w_writers_contend(p0: int, t0: int) -> bool:
+  """
+  pre: 0 <= p0 <= 30 and 0 <= t0 <= 1
+  post: _
+  """
+  t = usbstub.FakeTransport()
+  ad = _adapter(t)
+  a = M.AdbMessage('WRTE', 1, 2, 'aa')
+  b = M.AdbMessage('OKAY', 3, 4, 'b')
+  s = Z.Sched(preempt=[(p0, t0)], max_steps=200)
+  s.spawn('wa', _writer(ad, a, False))
+  s.spawn('wb', _writer(ad, b, False))
+  s.run()
+  # witness: writer B was scheduled while A held the lock between header and payload, and had to wait
+  return not any(x == ('wb', 'blocked') for x in s.trace)
